@@ -15,6 +15,7 @@ import strings
 
 type IR1 = {A: int; B: string}
 type IR2 = {Name: string; Vals: []int}
+type IR3 = {C: int; D: string}
 
 type IU =
 | IC1 of int
@@ -500,7 +501,7 @@ class MergeFn(Fn):
         return self
 
 
-RECS = {"IR1": [("A", INT), ("B", STR)], "IBox": [("Val", None), ("Tag", STR)]}
+RECS = {"IR1": [("A", INT), ("B", STR)], "IR3": [("C", INT), ("D", STR)], "IBox": [("Val", None), ("Tag", STR)]}
 
 
 class FldFn(Fn):
@@ -520,15 +521,20 @@ class FldFn(Fn):
             self.ptypes.append(t)
         stm = []          # (text, ast stmt, result part or None)
         parts = []
-        rec = rng.choice(["IR1", "IBox", "IBox"])
         holders = rng.sample(self.params, rng.randint(1, min(2, n)))      # parameters that are records (or slices of records)
         others = [p for p in self.params if p not in holders]
+        same = rng.random() < 0.5
+        rec0 = rng.choice(["IR1", "IR3", "IBox", "IBox"])
+        scalar = []        # (holder, field) of the scalar holders: their fields can meet in one expression
         for h in holders:
+            rec = rec0 if same else rng.choice(["IR1", "IR3", "IBox"])
             as_slice = rng.random() < 0.4
             # the access
             v = self.fresh("v")[1]
             r = self.fresh()
-            fldname = "A" if rec == "IR1" else "Val"
+            fldname = {"IR1": "A", "IR3": "C", "IBox": "Val"}[rec]
+            if not as_slice:
+                scalar.append((h, fldname, rec))
             if as_slice:
                 e = self.fresh()
                 self.eq(self.env[h], sl(e))
@@ -560,6 +566,8 @@ class FldFn(Fn):
             l = self.fresh("v")[1]
             if rec == "IR1":
                 lit, tlit, xlit = '{A=1; B="s"}', ["named", "IR1", []], call("{IR1}", LIT["int"], LIT["str"])
+            elif rec == "IR3":
+                lit, tlit, xlit = '{C=3; D="d"}', ["named", "IR3", []], call("{IR3}", LIT["int"], LIT["str"])
             else:
                 if others and rng.random() < 0.6:
                     q = rng.choice(others)
@@ -579,6 +587,26 @@ class FldFn(Fn):
                 stm.append(("let %s = [%s; %s]" % (l, h, lit), ["let", l, ["slice", [V(h), xlit]]]))
                 self.eq(self.env[h], tlit)
                 parts.append((l, sl(self.env[h]), V(l)))
+        # fields of two holders (possibly of different record types) meet in one expression
+        if len(scalar) == 2 and rng.random() < 0.7:
+            (h1, f1, k1), (h2, f2, k2) = scalar
+            m = self.fresh("v")[1]
+            r1, r2 = self.fresh(), self.fresh()
+            self.eqs.append(["fld", self.env[h1], f1, r1])
+            self.eqs.append(["fld", self.env[h2], f2, r2])
+            x1, x2 = ["fld", V(h1), f1], ["fld", V(h2), f2]
+            form = rng.choice(["slice", "plus", "eq"]) if "IBox" not in (k1, k2) else rng.choice(["slice", "eq"])
+            self.eq(r1, r2)
+            if form == "slice":
+                stm.append(("let %s = [%s.%s; %s.%s]" % (m, h1, f1, h2, f2), ["let", m, ["slice", [x1, x2]]]))
+                parts.append((m, sl(r1), V(m)))
+            elif form == "plus":
+                self.eq(r1, INT)
+                stm.append(("let %s = %s.%s + %s.%s" % (m, h1, f1, h2, f2), ["let", m, call("int+", x1, x2)]))
+                parts.append((m, INT, V(m)))
+            else:
+                stm.append(("let %s = %s.%s = %s.%s" % (m, h1, f1, h2, f2), ["let", m, call("eq", x1, x2)]))
+                parts.append((m, BOOL, V(m)))
         # merges between holders / others
         for _ in range(rng.randint(0, 2)):
             x, y = rng.sample(self.params, 2)
@@ -617,7 +645,7 @@ def generate(rng, n):
 
 
 # ------------------------------------------------------------------------------------------ abstract syntax -> Folang text
-CALLFMT = {"int+": "{0} + {1}", "str+": "{0} + {1}", "cmp": "{0} < {1}", "eq": "{0} = {1}", "{IR1}": "{{A={0}; B={1}}}", "{IR2}": "{{Name={0}; Vals={1}}}",
+CALLFMT = {"int+": "{0} + {1}", "str+": "{0} + {1}", "cmp": "{0} < {1}", "eq": "{0} = {1}", "{IR1}": "{{A={0}; B={1}}}", "{IR2}": "{{Name={0}; Vals={1}}}", "{IR3}": "{{C={0}; D={1}}}",
            "{IBox}": "{{Val={0}; Tag={1}}}"}
 
 
